@@ -35,6 +35,15 @@ func runAnything(c *CaseCtx, checkState bool, class string, merge bool) {
 		// changes: recorded findings of C15/C16); everything else must read the same after Merge, Close and Open
 		merge = true
 		g.List, g.NoZPop = false, true
+		if c.Case%8 == 5 {
+			// ... or the other way round: the handle merges once before anything of the history exists (no list record is
+			// in the log then), and the history - lists included - runs on that handle without further Merge calls
+			merge = false
+			g.List, g.NoZPop = ds, false
+			if preMergeHandle(c, db, cfg) {
+				class += "-after-merge"
+			}
+		}
 	}
 	nReopen := 2 + r.Intn(3)
 	ntx := 20 + r.Intn(tier(c.Tier, 40, 100))
